@@ -123,15 +123,26 @@ def make_table(nr, nc, prefix='v', kind='real', zeros=0, unsorted=True, layouts=
     layout = layouts[choice(len(layouts), 'layout')] if len(layouts) > 1 else layouts[0]
     if layout == 'csc':
         t._data = t._data.tocsc()       # what any sample-axis accessor does (Table._get_col)
+
+    def twin():
+        """an independent table in the very same representation state (fresh arrays, same terms)"""
+        m2 = b.csr((_arr(data), list(indices), list(indptr)), shape=(nr, nc))
+        t2 = b.Table(m2, list(oids), list(sids), _cp(omd), _cp(smd), type=type_, **kw)
+        if layout == 'csc':
+            t2._data = t2._data.tocsc()
+        return t2
     has_zero = any(c == 'Z' for row in cells for c in row)
     note('state', {'shape': [nr, nc], 'layout': layout, 'unsorted': was_unsorted, 'explicit_zero': has_zero,
                    'pattern': [''.join('.' if c is None else ('0' if isinstance(c, str) else 'x') for c in row)
                                for row in cells], 'md': md})
     atm = ATM(oids, sids, dense, omd, smd, type_)
     atm.info = {'layout': layout, 'unsorted': was_unsorted, 'explicit_zero': has_zero, 'history': 'none'}
+    atm.twin = twin
     if histories:
         h = histories[choice(len(histories), 'history')]
+        atm0 = atm
         t, atm = apply_history(t, atm, h)
+        atm.twin = lambda: apply_history(twin(), atm0, h)[0]
         core.CTX.notes['state']['history'] = h
         atm.info['layout'] = t._data.format
     return t, atm
